@@ -356,7 +356,7 @@ func genItems(t *rapid.T, forceID bool) []Item {
 	}
 	for i := 0; i < n; i++ {
 		var it Item
-		k := rapid.IntRange(0, 19).Draw(t, "ikind")
+		k := rapid.IntRange(0, 21).Draw(t, "ikind")
 		switch {
 		case k < 9:
 			it.Kind = "col"
@@ -395,12 +395,18 @@ func genItems(t *rapid.T, forceID bool) []Item {
 			}
 			a, b := pick(t, []string{"s", "t", "brand"}, "ca"), pick(t, []string{"s", "t", "brand", "zz"}, "cb")
 			it.Lit = a + " + " + pick(t, []string{"' '", "'-'", "''", "\"_\""}, "csep") + " + " + b
+		case k >= 20:
+			// a two-argument function over a nested path whose last segment is also the name of a top-level column
+			// (d.a.b / b, d.a.s / s, d.b / b): the argument is the path, never the top-level column
+			it.Kind = "ifnull"
+			it.Path = parsePath(pick(t, []string{"d.a.b", "d.a.s", "d.b", "d.s", "d.x", "d.q", "d.a.q.r", "a.x", "zz.y", "d.l[0]", "b", "s"}, "ifnullpath"))
+			it.Lit = pick(t, []string{"7", "-1", "0.5"}, "ifnulllit")
 		default:
 			it.Kind = "arith"
 			it.Ar = genArith(t)
 		}
 		// alias
-		needAlias := it.Kind == "num" || it.Kind == "arith" || it.Kind == "concat" || star
+		needAlias := it.Kind == "num" || it.Kind == "arith" || it.Kind == "concat" || it.Kind == "ifnull" || star
 		if it.Kind == "str" && (it.Lit == "" || rapid.IntRange(0, 3).Draw(t, "stralias") != 0) {
 			needAlias = true
 		}
